@@ -17,7 +17,7 @@ from .common import log
 from .prng import Rng
 
 US, RS = "\x1f", "\x1e"
-DEFAULT_WORDBREAKS = " \t\n\"'><=;|&(:"
+DEFAULT_WORDBREAKS = " \t\n\"'@><=;|&(:"     # bash's default
 
 HARNESS_SH = r'''
 LOG="$PWD/log"; : > "$LOG"
@@ -40,7 +40,44 @@ __load_behaviours() {
 }
 declare -a BEH_OUT BEH_ERR BEH_RC
 __load_behaviours
-_get_comp_words_by_ref() { words=("${COMP_WORDS[@]}"); cword=$COMP_CWORD; }
+_get_comp_words_by_ref() {
+    # Contract stub for bash-completion's function as the script uses it: `-n EXCLUDE words cword`, EXCLUDE = characters of
+    # COMP_WORDBREAKS that must NOT split words.  The harness hands over whole words; for every break character that the
+    # caller did NOT exclude the words are split the way readline would have split them (runs of such characters become
+    # words of their own).  With `-n "$COMP_WORDBREAKS"` nothing is split and this is the plain 3-line stub.
+    local exclude=""
+    if [[ ${1-} == -n ]]; then exclude=$2; shift 2; fi
+    local breaks=${COMP_WORDBREAKS//[$' \t\n']/} eff="" i ch
+    for ((i = 0; i < ${#breaks}; i++)); do
+        ch=${breaks:i:1}
+        [[ $exclude == *"$ch"* ]] || eff+=$ch
+    done
+    if [[ -z $eff ]]; then
+        words=("${COMP_WORDS[@]}"); cword=$COMP_CWORD
+        return
+    fi
+    local -a out=()
+    local w piece j c inbreak newc=0 k
+    for ((k = 0; k < ${#COMP_WORDS[@]}; k++)); do
+        w=${COMP_WORDS[k]}
+        if [[ -z $w ]]; then out+=(""); else
+            piece=""; inbreak=-1
+            for ((j = 0; j < ${#w}; j++)); do
+                c=${w:j:1}
+                if [[ $eff == *"$c"* ]]; then
+                    if [[ $inbreak -ne 1 && -n $piece ]]; then out+=("$piece"); piece=""; fi
+                    inbreak=1; piece+=$c
+                else
+                    if [[ $inbreak -eq 1 && -n $piece ]]; then out+=("$piece"); piece=""; fi
+                    inbreak=0; piece+=$c
+                fi
+            done
+            [[ -n $piece ]] && out+=("$piece")
+        fi
+        [[ $k -eq $COMP_CWORD ]] && newc=$(( ${#out[@]} - 1 ))
+    done
+    words=("${out[@]}"); cword=$newc
+}
 __case() {
     local id=$1; shift
     COMP_WORDS=("$@"); COMP_CWORD=$(( $# - 1 )); COMPREPLY=()
@@ -59,7 +96,7 @@ NT_NAMES = ["ARG", "REF", "HOST", "USER", "FILE", "ITEM", "THING"]
 DECOR = ["plain", "plain", "plain", "extra_words", "noop_prefix", "and_prefix", "odd_spacing", "newline_inside", "trailing_semicolon",
          "multiline_arg", "heredoc_arg", "exit_after", "exit_after", "exit_after", "ifs_change"]
 BEHAVIOURS = ["plain", "plain", "plain", "exit_nonzero", "stderr_noise", "empty", "empty_nonzero", "tab_descr", "dups", "spaces", "large", "dash",
-              "exit_and_stderr", "prefix_chain", "wordbreak_chars"]
+              "exit_and_stderr", "prefix_chain", "wordbreak_chars", "glob_candidate"]
 
 
 # ------------------------------------------------------------------ generation
@@ -258,7 +295,7 @@ def command_text(k, info, rng_unused=None):
     return base
 
 
-def assign_behaviours(rng, nprobes):
+def assign_behaviours(rng, nprobes, in_word=()):
     """Per probe: candidates (globally unique, prefix-free per probe) + the behaviour it plays."""
     beh = {}
     dash_used = False
@@ -266,6 +303,8 @@ def assign_behaviours(rng, nprobes):
         kind = rng.choice(BEHAVIOURS)
         if kind == "dash" and dash_used:
             kind = "plain"
+        if kind == "glob_candidate" and k in in_word:
+            kind = "plain"    # inside words the unchanged tree itself treats a candidate as a pattern (C07/C12 territory)
         n = rng.range(1, 4)
         cands = ["c%dx%d%s" % (k, j, rng.choice(["a", "bb", "q7", ""])) for j in range(n)]
         lines = list(cands)
@@ -294,6 +333,11 @@ def assign_behaviours(rng, nprobes):
         elif kind == "large":
             # > 64 KiB of output, with real candidates at the very beginning AND at the very end
             lines = cands[:-1] + ["c%dy%05d-%s" % (k, j, "p" * 12) for j in range(3200)] + cands[-1:]
+        elif kind == "glob_candidate":
+            # one candidate that would match other words if it were ever used as a PATTERN (`git branch` prints `* main`);
+            # it is offered like any other but never used as a typed complete word
+            cands = ["c%dx%d" % (k, j) for j in range(n)] + ["c%dx*" % k]
+            lines = list(cands)
         elif kind == "wordbreak_chars":
             # candidates containing characters of COMP_WORDBREAKS: only the TYPED prefix may be stripped, never the candidates
             cands = ["c%dx%d%s" % (k, j, rng.choice(["=v", ":w", "=a=b", ":"])) for j in range(n)]
@@ -379,7 +423,7 @@ def word_for(leaf, beh, rng):
     if leaf.kind == "any":
         return rng.choice(["anything", "x y", "--whatever", "c0x0"])
     if leaf.kind == "probe":
-        cs = [c for c in cands_of(beh, leaf.k) if c]
+        cs = [c for c in cands_of(beh, leaf.k) if c and "*" not in c]
         return rng.choice(cs) if cs else None
     out = ""
     for kind, v in leaf.parts:
@@ -436,6 +480,16 @@ def gen_lines(model, beh, rng, n):
             elif len(words[i]) > 1:
                 words[i] = words[i][:-1]
                 kind = "truncated@%d/%d" % (i, len(words))
+        elif len(words) >= 2 and roll < 9:
+            # a candidate of ANOTHER command (preferably one accepted earlier on this line) where it is not expected: state left
+            # over from an earlier command / an earlier completion in the same shell must not make it acceptable
+            pool = [c for k2 in beh for c in cands_of(beh, k2) if c and "*" not in c and " " not in c]
+            i = rng.below(len(words) - 1)
+            others = [c for c in pool if c != words[i]]
+            if others:
+                prev = [w for w in words[:i] if w in others]
+                words[i] = rng.choice(prev) if prev and rng.chance(2, 3) else rng.choice(others)
+                kind = "othercand@%d/%d" % (i, len(words))
         # typed prefix
         exp = model.expected(state) if state is not None or not words else []
         prefix = ""
@@ -622,7 +676,8 @@ def run_grammar(args):
            "distinct": 0, "bash_procs": 0}
     for b in range(nbatches):
         br = rng.sub("batch/%d" % b)
-        beh = assign_behaviours(br.sub("beh"), len(case["probes"]))
+        in_word = set(v for l in model.leaves if l.kind == "sw" for kind_, v in l.parts if kind_ == "probe")
+        beh = assign_behaviours(br.sub("beh"), len(case["probes"]), in_word)
         wordbreaks = br.choice([DEFAULT_WORDBREAKS, DEFAULT_WORDBREAKS, "", " \t\n"])
         lines = gen_lines(model, beh, br.sub("lines"), nlines)
         comp, recs = run_batch(case["text"], case["name"], beh, lines, wordbreaks)
